@@ -144,8 +144,15 @@ func (v *VFD) Snapshot() (wire []byte, ctl []string, log []string, closed bool, 
 	return append([]byte(nil), v.Wire...), append([]string(nil), v.Ctl...), append([]string(nil), v.Log...), v.Closed, len(v.Rq)
 }
 
+// ZeroLen, when set, answers write-like calls whose request is empty (the kernel returns 0 for
+// those without needing room, so no scripted answer is consumed).
+var ZeroLen func(v *VFD) (int, error)
+
 func (v *VFD) answer(want int) (int, error) {
 	v.Writes++
+	if want == 0 && ZeroLen != nil {
+		return ZeroLen(v)
+	}
 	if len(v.Script) == 0 {
 		return -1, syscall.EAGAIN // exhausted script: kernel is full from now on
 	}
